@@ -392,15 +392,194 @@ class Step(Case):
         return obs
 
 
+class Order(Case):
+    """H2: apply_nn_gate_layer, parallel branch under the Executor.map contract with a
+    solver-chosen run order == sequential branch"""
+    functions = ("PtTebdBackend.apply_nn_gate_layer", "_apply_nn_gate_get_data", "apply_nn_gate", "_apply_nn_gate",
+                 "_apply_nn_gate_replace_gam_lam_gam")
+    stubs = (STUB_SVD, "concurrent.futures.ThreadPoolExecutor / ProcessPoolExecutor -> documented Executor.map contract: tasks run in "
+             "a solver-chosen order on the calling thread, results are yielded in submission order (real threads/processes and "
+             "pickling outside the claim)")
+    env = {"noconj": True, "extra": SYM_EXTRA}
+    timeout_s = 300
+
+    def __init__(self, n, mode, bond, chi):
+        self.n, self.mode, self.bond, self.chi = n, mode, bond, chi
+        self.id = "H2/layer/n%d_%s_b%d_chi%d" % (n, mode, bond, chi)
+        self.bounds = {"d": 2, "sites": n, "gates_in_layer": n // 2, "mode": mode, "bond": bond, "gate_bond": chi,
+                       "run_orders": "all %d permutations (symbolic)" % len(list(itertools.permutations(range(n // 2))))}
+
+    def run(self, inp):
+        n = self.n
+        adims = [1 + (s % 2) for s in range(n)]
+        gs = _mps(inp, n, self.bond, adims)
+        lams = _lams(inp, n, self.bond)
+        gates = [NnGate(k, tebd.make_gate(inp, "G%d" % k, 2, 2, self.chi)) for k in range(0, n - 1, 2)]
+        layer = GateLayer(parallel=True, gates=gates)
+        seq = PtTebdBackend([np.array(g) for g in gs], lams, EPS, {})
+        seq.apply_nn_gate_layer(layer)
+        par = PtTebdBackend([np.array(g) for g in gs], lams, EPS, {"parallel": self.mode})
+        k = len(gates)
+        perm = tebd.choose_permutation(inp, k, "order")
+        fake = tebd.fake_concurrent(lambda m: perm)
+        with env.patched({"oqupy.backends.pt_tebd_backend.concurrent": fake}):
+            par.apply_nn_gate_layer(layer)
+        obs = [Ob.holds("the tasks ran in the chosen order", fake.log == [perm])]
+        for s in range(n):
+            obs.append(Ob.eq("gamma %d" % s, par.get_gamma(s), seq.get_gamma(s)))
+        for s in range(n - 1):
+            obs.append(Ob.eq("lambda %d" % s, par.get_lambda(s), seq.get_lambda(s)))
+        if n <= 4:
+            obs.append(Ob.eq("joint state", tebd.joint_state(par), tebd.joint_state(seq)))
+            T0 = tebd.joint_from_tensors(gs, [np.diag(l) if inp.mode == "real" else lib._odiag(l) for l in lams])
+            for g in gates:
+                T0 = tebd.o_nn(T0, g.sites[0], g.tensors[0], g.tensors[1])
+            obs.append(Ob.eq("joint state == gates applied to the joint state", tebd.joint_state(par), T0))
+        return obs
+
+
+class OrderRun(Case):
+    """H2: whole PtTebd.compute in a parallel mode (every layer through the executor stub,
+    one solver-chosen run order per layer) == sequential mode"""
+    functions = ProdStep.functions[:-1]
+    stubs = Order.stubs + (STUB_GATE,)
+    env = {"noconj": True, "extra": SYM_EXTRA}
+    timeout_s = 600
+    max_paths = 300
+
+    def __init__(self, n, order, mode):
+        self.n, self.order, self.mode = n, order, mode
+        self.id = "H2/run/n%d_o%d_%s" % (n, order, mode)
+        self.bounds = {"d": 2, "sites": n, "order": order, "steps": 1, "mode": mode, "gate_bond": 2, "gate_entries": "sparse",
+                       "run_orders": "every combination of per-layer permutations (symbolic)"}
+
+    def run(self, inp):
+        n = self.n
+        rhos = [inp.arr("r%d" % s, (2, 2)) for s in range(n)]
+        gates = [tebd.make_gate(inp, "G%d" % k, 2, 2, 2, "sparse") for k in range(n - 1)]
+        pts = [None if s % 2 else tebd.make_pt(inp, "e%d" % s, 2, 1, 1, kind="sparse")[0] for s in range(n)]
+        sites = list(range(n)) + [(1, 2)]
+        _, res_s, _ = _run_pt_tebd(inp, n, self.order, 1, rhos, gates, pts, sites)
+        count = [0]
+
+        def chooser(m):
+            if m <= 1:
+                return tuple(range(m))
+            count[0] += 1
+            return tebd.choose_permutation(inp, m, "order%d" % count[0])
+        fake = tebd.fake_concurrent(chooser)
+        with env.patched({"oqupy.backends.pt_tebd_backend.concurrent": fake}):
+            _, res_p, _ = _run_pt_tebd(inp, n, self.order, 1, rhos, gates, pts, sites, config={"parallel": self.mode})
+        nlayers = 2 * (2 if self.order == 1 else 4)
+        obs = [Ob.holds("every layer went through the executor", len(fake.log) == nlayers)]
+        for step in range(2):
+            obs.append(Ob.eq("norm at step %d" % step, res_p["norm"][step], res_s["norm"][step]))
+            for ss in sites:
+                obs.append(Ob.eq("sites %s at step %d" % (ss, step), res_p["dynamics"][ss].states[step], res_s["dynamics"][ss].states[step]))
+        return obs
+
+
+_FRESH = r"""
+import json, sys
+import numpy as np
+import oqupy                                   # the ONLY import of the package under test
+import oqupy.backends.pt_tebd_backend as be
+out = {"futures_attribute": hasattr(be.concurrent, "futures")}
+sx, sy, sz = [oqupy.operators.sigma(k) for k in "xyz"]
+def build(par):
+    sc = oqupy.SystemChain([2, 2, 2, 2])
+    for i in range(4):
+        sc.add_site_hamiltonian(i, 0.3 * (i + 1) * sx + 0.1 * sz)
+    for i in range(3):
+        sc.add_nn_hamiltonian(i, 0.7 * sz, sz + 0.2 * sx)
+        sc.add_nn_dissipation(i, sx + 1j * sy, sz, 0.1)
+    rho = [np.array([[0.7, 0.1j], [-0.1j, 0.3]]), np.array([[0.5, 0.2], [0.2, 0.5]]),
+           np.array([[1.0, 0], [0, 0]]), np.array([[0.2, 0], [0, 0.8]])]
+    cfg = {} if par is None else {"parallel": par}
+    return oqupy.PtTebd(oqupy.AugmentedMPS(rho), sc, [None] * 4, oqupy.PtTebdParameters(dt=0.1, epsrel=1e-10, order=2),
+                        dynamics_sites=[0, 1, 2, 3, (1, 2)], backend_config=cfg)
+ref = build(None).compute(2, progress_type="silent")
+for par in ("multithread", "multiprocess"):
+    try:
+        r = build(par).compute(2, progress_type="silent")
+        d = max(float(np.abs(np.array(ref["dynamics"][k].states) - np.array(r["dynamics"][k].states)).max()) for k in ref["dynamics"])
+        d = max(d, float(np.abs(ref["norm"] - r["norm"]).max()))
+        out[par] = {"ok": True, "maxdiff": d}
+    except Exception as e:
+        import traceback
+        tb = traceback.extract_tb(e.__traceback__)
+        out[par] = {"ok": False, "error": "%s: %s" % (type(e).__name__, e), "where": "%s:%d" % (tb[-1].filename, tb[-1].lineno)}
+# validation step: once the caller has bound concurrent.futures, the REAL executors must
+# reproduce the sequential result
+import concurrent.futures
+for par in ("multithread", "multiprocess"):
+    try:
+        r = build(par).compute(2, progress_type="silent")
+        d = max(float(np.abs(np.array(ref["dynamics"][k].states) - np.array(r["dynamics"][k].states)).max()) for k in ref["dynamics"])
+        d = max(d, float(np.abs(ref["norm"] - r["norm"]).max()))
+        out[par + "_after_import"] = {"ok": True, "maxdiff": d}
+    except Exception as e:
+        out[par + "_after_import"] = {"ok": False, "error": "%s: %s" % (type(e).__name__, e)}
+print("RESULT " + json.dumps(out))
+"""
+
+
+def fresh_interpreter():
+    """run the script above in a fresh interpreter whose only access to the package is
+    PYTHONPATH = the tree under analysis"""
+    envv = {k: v for k, v in os.environ.items() if k not in ("PYTHONPATH", "PYTHONSTARTUP")}
+    envv["PYTHONPATH"] = core.REPO
+    envv["OMP_NUM_THREADS"] = "1"
+    p = subprocess.run([sys.executable, "-c", _FRESH], env=envv, capture_output=True, text=True, timeout=600, cwd="/")
+    for line in p.stdout.splitlines():
+        if line.startswith("RESULT "):
+            return json.loads(line[7:])
+    raise RuntimeError("fresh interpreter failed: rc=%s\n%s" % (p.returncode, p.stderr[-1500:]))
+
+
+class Fresh(Case):
+    """H3: concrete observation in a fresh interpreter (no symbolic input; the 'model' is
+    empty and the replay is the subprocess itself)"""
+    functions = ("PtTebdBackend.apply_nn_gate_layer (parallel branch, real executors, fresh interpreter)",)
+    stubs = ()
+    env = {}
+    validate = False
+
+    def __init__(self):
+        self.id = "H3/fresh-interpreter"
+        self.bounds = {"sites": 4, "d": 2, "order": 2, "steps": 2, "modes": ["multithread", "multiprocess"],
+                       "kind": "concrete subprocess run, not a solver verdict"}
+
+    def run(self, inp):
+        r = fresh_interpreter()
+        obs = []
+        for mode in ("multithread", "multiprocess"):
+            m = r[mode]
+            missing = (not m["ok"]) and "has no attribute 'futures'" in m.get("error", "")
+            obs.append(Ob.holds("fresh interpreter, %s: parallel branch usable (concurrent.futures bound)" % mode, not missing,
+                                key="concurrent.futures/" + mode,
+                                info="python -c 'import oqupy; PtTebd(..., backend_config={\"parallel\": %r}).compute(2)' -> %s at %s"
+                                     % (mode, m.get("error"), m.get("where"))))
+            obs.append(Ob.holds("fresh interpreter, %s: no other exception" % mode, m["ok"] or missing, key=mode + "/exception",
+                                info=str(m.get("error"))))
+            obs.append(Ob.holds("fresh interpreter, %s: same results as sequential" % mode,
+                                (not m["ok"]) or m["maxdiff"] < 1e-9, key=mode + "/differs", info=str(m.get("maxdiff"))))
+            a = r[mode + "_after_import"]
+            obs.append(Ob.holds("real %s executor after `import concurrent.futures` == sequential" % mode,
+                                a["ok"] and a["maxdiff"] < 1e-9, key=mode + "/after-import", info=str(a)))
+        return obs
+
+
 def cases(tier):
     if tier == "exp":
-        return [Step(2, 2, 1, 1, "dense", 1), Step(2, 2, 1, 2, "dense", 1), Step(3, 1, 1, 2, "dense", 1), Step(3, 2, 1, 2, "sparse", 1),
-                Step(4, 2, 1, 2, "sparse", 1), Step(3, 1, 2, 2, "sparse", 2), ProdStep(3, 2, 1, "dense", 1), ProdStep(4, 2, 2, "sparse", 2),
-                Step(4, 1, 1, 2, "sparse", 1), ProdStep(2, 2, 2, "dense", 2)]
+        return [Step(3, 2, 1, 2, "perm", 1), Step(4, 2, 1, 2, "perm", 1), Step(4, 1, 1, 2, "perm", 1), Step(3, 2, 2, 2, "perm", 2),
+                ProdStep(4, 2, 2, "perm", 2), ProdStep(3, 1, 2, "perm", 2)]
     cs = [OpNn(2, 0, 2, (1, 1), 2), OpNn(3, 1, 2, (2, 1, 2), 2), OpNn(3, 0, 2, (1, 2, 1), 1, twice=True),
           OpSitePt(3, 2, (1, 1, 2), 4), OpSitePt(2, 2, (2, 1), 3),
           OpTraces(2, 2, (2, 1)), OpTraces(3, 2, (1, 2, 1))]
     cs += [ProdStep(2, 1, 1, "dense", 1), ProdStep(3, 2, 1, "sparse", 1, nopt=(1,)), ProdStep(3, 1, 2, "sparse", 2)]
     cs += [Step(2, 1, 1, 2, "dense", 1), Step(2, 2, 1, 2, "sparse", 1), Step(3, 1, 1, 2, "sparse", 1, nopt=(0,)),
            Step(2, 1, 2, 2, "sparse", 2, ptrank=3)]
+    cs += [Order(4, "multithread", 1, 2), Order(4, "multiprocess", 1, 1), OrderRun(4, 1, "multithread")]
+    cs += [Fresh()]
     return cs
